@@ -5,6 +5,8 @@ import sys
 
 import numpy as np
 
+import traceback
+
 REPO = os.path.abspath(os.environ.get("VERIF_REPO", "/repo"))
 
 
@@ -93,3 +95,27 @@ class Snap:
             if fingerprint(o) != self.before[i]:
                 out.append(i)
         return out
+
+
+def library_raised(ex):
+    """(key, message) if the innermost frame of the exception lies in the library under test (an exception that
+    escapes from the real code during a replay is an observation about the code, not a harness failure), else None"""
+    tb = traceback.extract_tb(ex.__traceback__)
+    src = os.path.join(REPO, "src") + os.sep
+    if tb and os.path.abspath(tb[-1].filename).startswith(src):
+        fr = tb[-1]
+        where = "%s:%d in %s" % (os.path.relpath(fr.filename, src), fr.lineno, fr.name)
+        return ("library-raised:%s:%s" % (type(ex).__name__, fr.name), "the library raised %s: %s (%s) while the check replayed this case" % (type(ex).__name__, str(ex)[:300], where))
+    return None
+
+
+def guarded(fn, w, case):
+    try:
+        return fn(w, case)
+    except Exception as ex:
+        lr = library_raised(ex)
+        if lr is None:
+            raise
+        return [lr]
+
+
